@@ -66,6 +66,7 @@ type entry struct {
 	Metric int
 	Tagv   int
 	Bad    bool          // the payload is not a snappy block: Replica cannot decompress it
+	Empty  int           // (with Bad) the payload DOES decompress but yields no rows: 1 = empty block, 2 = a block on which UnmarshalRows panics
 	Leader models.NodeID // the leader whose log partition holds the entry (0 = the node itself)
 	Slot   int64         // index among all entries of the case = the time slot of its row
 }
@@ -569,6 +570,24 @@ func (n *node) posAll() string {
 // ---------------------------------------------------------------- writes
 
 func (e entry) message(famTime int64) ([]byte, error) {
+	if e.Empty == 1 {
+		// a snappy stream that consists of the stream identifier chunk only: decompresses to zero bytes
+		// (a zero-length message is never logged: partition.WriteLog drops it)
+		return []byte("\xff\x06\x00\x00sNaPpY"), nil
+	}
+	if e.Empty != 0 {
+		w := compress.NewSnappyWriter()
+		if e.Empty == 2 {
+			// size prefix far beyond the block: UnmarshalRows slices out of range and panics
+			if _, err := w.Write([]byte{0xff, 0xff, 0x00, 0x00, 0x01, 0x02}); err != nil {
+				return nil, err
+			}
+		}
+		if err := w.Close(); err != nil {
+			return nil, err
+		}
+		return append([]byte(nil), w.Bytes()...), nil
+	}
 	if e.Bad {
 		return []byte("\x01\x02 this is not a snappy stream \xfe\xff"), nil
 	}
@@ -666,6 +685,46 @@ func (n *node) applyNext(e entry) error {
 	}
 	if !replica.VerifReplicaOnce(n.part, leader) {
 		return errors.New("no local replicator")
+	}
+	return nil
+}
+
+// failingGet forwards every method to lindb's own replicator (IgnoreMessage, Consume, Replica ...
+// are the real ones) except GetMessage, which reports the entry seq as unreadable.
+type failingGet struct {
+	replica.Replicator
+	seq int64
+	hit *bool
+}
+
+func (f failingGet) GetMessage(idx int64) ([]byte, error) {
+	if idx == f.seq {
+		*f.hit = true
+		return nil, queue.ErrMsgNotFound
+	}
+	return f.Replicator.GetMessage(idx)
+}
+
+// applyGetFail runs one iteration of the partition's replica loop body in which GetMessage fails for
+// the next entry e: partition.replica's error branch (replicator.IgnoreMessage(seq), no Replica).
+func (n *node) applyGetFail(e entry) error {
+	if !n.pending() {
+		return errors.New("nothing pending")
+	}
+	hit := false
+	var old replica.Replicator
+	if !replica.VerifWrapReplicator(n.part, leader, func(r replica.Replicator) replica.Replicator {
+		old = r
+		return failingGet{Replicator: r, seq: e.Seq, hit: &hit}
+	}) {
+		return errors.New("no local replicator")
+	}
+	defer replica.VerifWrapReplicator(n.part, leader, func(replica.Replicator) replica.Replicator { return old })
+	if !replica.VerifReplicaOnce(n.part, leader) {
+		return errors.New("no local replicator")
+	}
+	if !hit {
+		return fmt.Errorf("the replica loop did not ask for entry %d", e.Seq)
 	}
 	return nil
 }
